@@ -20,6 +20,7 @@ import LlgVerif.Model.NumSat
 import LlgVerif.Model.Earley
 import LlgVerif.Model.Schema
 import LlgVerif.Model.Lexer
+import LlgVerif.Spec.Contain
 open LlgVerif Drv
 
 def wordsOf (l : List Nat) : List Word := l.map (fun n => BitVec.ofNat 32 n)
@@ -854,6 +855,22 @@ def handleLx (st : St) (args : List String) : St × String :=
         | none => (st, "dead")
       | none => (st, "no-such-lx")
     | _, _ => (st, "bad-op")
+  | ["contain", id, u, sl, entries] =>
+    -- containment of the slice lexeme `sl` in the prefixes of some entry of the lexer state after the open
+    -- lexeme's bytes `u` (what `check_subsume` claims when it answers true), decided on the certificates
+    match parseNat? id, parseHex? u, parseNat? sl, parseNatList? entries with
+    | some id, some u, some sl, some entries =>
+      match st.lxs.find? (·.1 = id) with
+      | some (_, C) =>
+        let ds := (C.lx sl).dfa
+        let rs := entries.filter (fun l => !(C.lx l).isLazy) |>.map (fun l =>
+          let db := (C.lx l).dfa
+          Dfa.decideContain ds db (Dfa.run db 0 u) 3000)
+        if rs.contains (some true) then (st, "ok 1")
+        else if rs.contains none then (st, "ok 1 || undecided")
+        else (st, "ok 0")
+      | none => (st, "no-such-lx")
+    | _, _, _, _ => (st, "bad-op")
   | ["ff", id, w] =>
     -- forced bytes (M6 `forceBytes`, exhaustive probe) of the byte-level engine after the bytes `w`
     match parseNat? id, parseHex? w with
